@@ -241,6 +241,12 @@ func cmdCheck(argv []string) int {
 			g.n++
 			if o.Status != "unsat" {
 				g.reachable++
+			} else if o.Must {
+				// a success return that no input reaches under the assumed contracts: whatever was
+				// "proved" about success is vacuous
+				exit = 1
+				rp := writeReplayText(*prop, o, "vacuity: the success return at "+o.Pos+" is unreachable under the contracts assumed on the way (contradictory or too strong assumptions)")
+				violations = append(violations, fmt.Sprintf("VIOLATION property=%s replay=%s obligation=%s vacuous: success return unreachable no-failing-input-found", *prop, rp, o.Name))
 			}
 			continue
 		}
